@@ -297,12 +297,12 @@ func negative(tokens []Token, baseUrl string, out *csDescriptors) error {
 	}
 
 	var values []pr.NamedString
-	for len(tokens) != 0 {
-		var token Token
-		token, tokens = tokens[len(tokens)-1], tokens[:len(tokens)-1]
-		if p, ok := stringIdentOrUrl(token, baseUrl); ok {
-			values = append(values, p)
+	for _, token := range tokens {
+		p, ok := stringIdentOrUrl(token, baseUrl)
+		if !ok {
+			return ErrInvalidValue
 		}
+		values = append(values, p)
 	}
 
 	if len(values) == 1 {
